@@ -432,19 +432,33 @@ int main(int argc, char **argv) {
       B5.deserialize(base + "B4");
       C5.deserialize(base + "C4");
       world.barrier();
+      // images in which some ranks own nothing (and an empty image), loaded into targets that hold something on every rank
+      bag<long>       B6(world), B7(world), B8(world), B9(world);
+      map<long, long> M6(world, 1), M7(world, 2), M8(world, 3), M9(world, 4);
+      set<long>       S6(world), S7(world), S8(world), S9(world);
+      if (me == 0) { B6.async_insert(71, 0); B6.async_insert(72, 0); M6.async_insert(0, 5); S6.async_insert(0); }
+      for (int k = 0; k < 3 * R; ++k) { B7.async_insert(900 + k, k % R); B9.async_insert(950 + k, k % R); M7.async_insert(1000 + k + me * 100, 1); M9.async_insert(2000 + k + me * 100, 1);
+                                        S7.async_insert(1000 + k + me * 100); S9.async_insert(2000 + k + me * 100); }
+      B6.serialize(base + "B6"); B8.serialize(base + "B8"); M6.serialize(base + "M6"); M8.serialize(base + "M8"); S6.serialize(base + "S6"); S8.serialize(base + "S8");
+      B7.deserialize(base + "B6"); B9.deserialize(base + "B8"); M7.deserialize(base + "M6"); M9.deserialize(base + "M8"); S7.deserialize(base + "S6"); S9.deserialize(base + "S8");
+      world.barrier();
       auto dumpm = [&](const std::string &tag, auto &m) {
         std::string s = "Z " + std::to_string(me) + " " + tag + " dflt=" + std::to_string(m.m_impl.m_default_value) + " :";
         for (auto &kv : m.m_impl.m_local_map) s += " " + std::to_string(kv.first) + "=" + std::to_string(kv.second);
         line(s);
       };
-      dumpm("M", M); dumpm("M2", M2); dumpm("X", X); dumpm("X2", X2); dumpm("M3", M3); dumpm("M5", M5);
+      dumpm("M", M); dumpm("M2", M2); dumpm("X", X); dumpm("X2", X2); dumpm("M3", M3); dumpm("M5", M5); dumpm("M6", M6); dumpm("M7", M7); dumpm("M8", M8); dumpm("M9", M9);
       auto dumps = [&](const std::string &tag, auto &m) {
         std::string s = "Z " + std::to_string(me) + " " + tag + " :";
         for (auto &k : m.m_impl.m_local_set) s += " " + std::to_string(k);
         line(s);
       };
-      dumps("S", S); dumps("S2", S2); dumps("T", T); dumps("T2", T2); dumps("S3", S3); dumps("S5", S5);
+      dumps("S", S); dumps("S2", S2); dumps("T", T); dumps("T2", T2); dumps("S3", S3); dumps("S5", S5); dumps("S6", S6); dumps("S7", S7); dumps("S8", S8); dumps("S9", S9);
       line("Z " + std::to_string(me) + " B3 rr=" + std::to_string(B3.m_round_robin) + " :" + join(B3.m_local_bag));
+      line("Z " + std::to_string(me) + " B6 rr=" + std::to_string(B6.m_round_robin) + " :" + join(B6.m_local_bag));
+      line("Z " + std::to_string(me) + " B7 rr=" + std::to_string(B7.m_round_robin) + " :" + join(B7.m_local_bag));
+      line("Z " + std::to_string(me) + " B8 rr=" + std::to_string(B8.m_round_robin) + " :" + join(B8.m_local_bag));
+      line("Z " + std::to_string(me) + " B9 rr=" + std::to_string(B9.m_round_robin) + " :" + join(B9.m_local_bag));
       line("Z " + std::to_string(me) + " B5 rr=" + std::to_string(B5.m_round_robin) + " :" + join(B5.m_local_bag));
       line("Z " + std::to_string(me) + " B rr=" + std::to_string(B.m_round_robin) + " :" + join(B.m_local_bag));
       line("Z " + std::to_string(me) + " B2 rr=" + std::to_string(B2.m_round_robin) + " :" + join(B2.m_local_bag));
